@@ -42,7 +42,7 @@ impl<T: PartialEq> PartialEq for VVec<T> {
 
 impl<T> VVec<T> {
     pub fn new() -> Self {
-        VVec { n: 0, items: core::array::from_fn(|_| None) }
+        VVec { n: 0, items: [const { None }; VCAP] }
     }
     pub fn with_capacity(_c: usize) -> Self {
         Self::new()
